@@ -73,6 +73,7 @@ func (c *cluster) step(a vAct) {
 	for k := range c.respInStep {
 		delete(c.respInStep, k)
 	}
+	c.net.deliveredTo = map[string]int{}
 	c.net.mu.Unlock()
 	c.apply(a)
 	synctest.Wait()
@@ -205,6 +206,12 @@ func (c *cluster) apply(a vAct) {
 		// K voters with pre-seeded configuration, L = extra provisioned (empty) nodes,
 		// T = seed of the nodes' randomised timers
 		c.rng = rand.New(rand.NewSource(a.T))
+		if a.D > 0 {
+			// automatic snapshots: D = SnapshotInterval in ms, C = SnapshotThreshold
+			c.opt.SnapshotInterval = time.Duration(a.D) * time.Millisecond
+			c.opt.SnapshotThreshold = uint64(a.C)
+			c.stats.class("auto-snapshots")
+		}
 		nodes := map[uint64]Node{}
 		for i := 1; i <= a.K; i++ {
 			id := uint64(i)
@@ -454,6 +461,10 @@ func (c *cluster) apply(a vAct) {
 				}
 			}
 		}
+	case "waitstable":
+		if n := c.up(a.N); n != nil {
+			c.submitTask(n, "wait", WaitForStableConfig())
+		}
 	case "unholdall":
 		c.releaseAllHolds()
 	case "probe":
@@ -505,7 +516,63 @@ func (c *cluster) applyCfg(a vAct) {
 		}
 	}
 	var err error
+	invalid := ""
 	switch a.S {
+	case "flipvoter", "addvoter", "dropnode", "allleave", "older":
+		if len(cfg.Nodes) == 0 {
+			// a ChangeConfig task on a node without configuration is a bootstrap:
+			// anything but the cluster's initial configuration would fork the cluster
+			// by operator error (see the bootstrap action)
+			return
+		}
+	}
+	switch a.S {
+	case "flipvoter":
+		// the voting right changed directly, without promote/demote action
+		if nd, ok := cfg.Nodes[a.M]; ok {
+			nd.Voter = !nd.Voter
+			cfg.Nodes[a.M] = nd
+			invalid = "voting right of a member changed directly"
+		} else {
+			return
+		}
+	case "addvoter":
+		if _, ok := cfg.Nodes[a.M]; ok {
+			return
+		}
+		cfg.Nodes[a.M] = Node{ID: a.M, Addr: addrOf(a.M), Voter: true}
+		invalid = "new node added as voter"
+	case "dropnode":
+		if _, ok := cfg.Nodes[a.M]; !ok {
+			return
+		}
+		delete(cfg.Nodes, a.M)
+		invalid = "member dropped without an action"
+	case "allleave":
+		// every voter gets a leaving action: no voter would remain
+		k := 0
+		for id, nd := range cfg.Nodes {
+			if nd.Voter {
+				if id%2 == 0 {
+					nd.Action = Demote
+				} else {
+					nd.Action = Remove
+				}
+				cfg.Nodes[id] = nd
+				k++
+			}
+		}
+		if k == 0 {
+			return
+		}
+		invalid = "every voter demoted or removed"
+	case "older":
+		if cfg.Index == 0 {
+			return
+		}
+		cfg.Index--
+		_ = cfg.AddNonvoter(a.M+50, addrOf(a.M+50), false)
+		invalid = "based on an older configuration"
 	case "addnv":
 		err = cfg.AddNonvoter(a.M, addrOf(a.M), false)
 	case "addpromote":
@@ -540,6 +607,10 @@ func (c *cluster) applyCfg(a vAct) {
 	}
 	pt := c.submitTask(n, "cfg", ChangeConfig(cfg))
 	pt.cfgNew = cfg
+	pt.cfgInvalid = invalid
+	if invalid != "" {
+		c.stats.class("cfg-invalid-request")
+	}
 }
 
 // ---------------------------------------------------------------- info polling
